@@ -562,6 +562,8 @@ META["explanation"] += " " + 'Also (round 12 and fifth reading): level loops inc
 
 META["explanation"] += " " + 'Also (round 13): an auto-resize destroy forgets caller_resize_attr once it has handed the attribute back, so that a resize step in flight creates its helper threads with default attributes (C09.attr).'
 
+META["explanation"] += " " + "Also (round 14): the locks held across the hash table's grace-period waits are acquired offline (C09.gpmutex; genuine defect fixed in /repo ac4b599); pause_worker returns only once the worker acknowledged PAUSED."
+
 RULES = [
     ("C09.pow2", rule_pow2),
     ("C09.size", rule_size),
